@@ -370,3 +370,426 @@ Proof.
   destruct (queue_package_b_spec ps chan typ c st b Hps Hq) as [f1 [st1 [e1 [E1 [Hq1 _]]]]].
   rewrite E1 in H. inversion H; subst. exact Hq1.
 Qed.
+
+(* ------------------------------------------------------------------ the interrupted flush *)
+Lemma send_loop_b_flush ps chan typ ipq idq last : 8 <= ps -> 0 <= idq <= zlen (pdata last) -> 8 + idq < 65536 ->
+  forall pre i nr b, Forall (full_pkt ps) pre -> 0 <= i -> i + zlen pre = ipq ->
+  (exists s : nat, (s <= length pre)%nat /\
+    send_loop_b ps chan typ false ipq idq i (pre ++ [last]) nr b =
+    Some (enc_fulls ps typ chan nr (map pdata (firstn s pre)), steps chan nr s, Z.of_nat s, true)) \/
+  send_loop_b ps chan typ false ipq idq i (pre ++ [last]) nr b =
+    Some (enc_fulls ps typ chan nr (map pdata pre) ++
+          [enc_pkt typ 1 (8 + idq) chan (steps chan nr (length pre)) (ztake idq (pdata last))],
+          steps chan nr (S (length pre)), zlen pre + 1, false).
+Proof.
+  intros Hps Hid Hsmall. induction pre as [|p pre IH]; intros i nr b Hf Hi Hle.
+  - cbn [app send_loop_b]. destruct (bdone b).
+    + left. exists O. split; [cbn; lia|]. reflexivity.
+    + right. change (zlen (@nil packet)) with 0 in Hle.
+      replace (i =? ipq) with true by (symmetry; apply Z.eqb_eq; lia).
+      replace ((idq <? 0) || (zlen (pdata last) <? idq)) with false
+        by (symmetry; apply orb_false_iff; split; apply Z.ltb_ge; lia).
+      rewrite (send_last ps chan typ nr idq last) by lia. reflexivity.
+  - pose proof (Forall_inv Hf) as Hp. pose proof (Forall_inv_tail Hf) as Hpre.
+    rewrite zlen_cons in Hle. pose proof (zlen_nonneg pre) as Hn.
+    cbn [app send_loop_b]. destruct (bdone b).
+    + left. exists O. split; [cbn; lia|]. reflexivity.
+    + replace (i =? ipq) with false by (symmetry; apply Z.eqb_neq; lia).
+      rewrite (send_full ps chan typ nr p Hps Hp).
+      destruct (IH (i + 1) (step1 chan nr) (bdec b) Hpre ltac:(lia) ltac:(lia)) as [[s [Hs E]]|E]; rewrite E.
+      * left. exists (S s). split; [cbn [length]; lia|].
+        cbn [firstn map enc_fulls steps]. f_equal. f_equal. f_equal. lia.
+      * right. cbn [map enc_fulls steps length app]. rewrite zlen_cons. f_equal. f_equal. f_equal. lia.
+Qed.
+
+Lemma length_enc_fulls ps typ chan : forall l nr, length (enc_fulls ps typ chan nr l) = length l.
+Proof. induction l as [|x l IH]; intros nr; [reflexivity|]. cbn [enc_fulls length]. rewrite IH. reflexivity. Qed.
+
+(* complete packets are a proper prefix of the packetisation as long as a byte is left *)
+Lemma tx_prefix_fulls ps typ chan : 9 <= ps <= 65535 -> 0 <= chan < 65536 ->
+  forall done nrs nrm rest, Forall (fun x => zlen x = ps - 8) done -> 1 <= zlen rest ->
+  (0 < chan -> nrm mod 256 = nrs mod 256) ->
+  tx_prefix_ok ps typ chan nrs (concat done ++ rest) (enc_fulls ps typ chan nrm done) = true.
+Proof.
+  intros Hps Hc. induction done as [|x done IH]; intros nrs nrm rest Hf Hr Hnr; [reflexivity|].
+  pose proof (Forall_inv Hf) as Hx. cbn beta in Hx. pose proof (Forall_inv_tail Hf) as Hfs.
+  cbn [concat enc_fulls tx_prefix_ok]. rewrite <- app_assoc. rewrite parse_enc by lia.
+  rewrite (header_ok_enc ps typ chan nrs nrm ps x false) by (try lia; exact Hnr).
+  rewrite Hx, Z.eqb_refl.
+  replace (ps - 8 <? zlen (x ++ concat done ++ rest)) with true
+    by (symmetry; apply Z.ltb_lt; rewrite !zlen_app; pose proof (zlen_nonneg (concat done)); lia).
+  rewrite <- Hx at 1 2. rewrite ztake_app_exact, zdrop_app_exact, list_Z_eqb_refl. cbn [andb].
+  apply IH; [exact Hfs|exact Hr|]. intros Hpos. apply step1_mod; [exact Hpos|apply Hnr; exact Hpos].
+Qed.
+
+Theorem interrupted_flush ps chan typ st b : 9 <= ps <= 65535 -> 0 <= chan < 65536 ->
+  msg_qi ps (tq st) -> pkts (tq st) <> [] ->
+  exists o st' e, send_remaining_b ps chan typ st b = Some (o, st', e) /\ tq st' = empty_pq /\
+    (if e then tx_prefix_ok ps typ chan (tnr st) (before (tq st)) o = true /\
+               tnr st' = steps chan (tnr st) (length o)
+     else send_remaining ps chan typ st = Some (o, st')).
+Proof.
+  intros Hps Hc [Htx [Hpl Hid]] Hne. specialize (Hid Hne).
+  destruct Htx as [Hok [[Hnil _]|[pre [last [Hp [Hip Hidr]]]]]]; [congruence|].
+  assert (Hlast : plen last = ps /\ pk_ok last).
+  { rewrite Hp in Hok, Hpl. apply Forall_app in Hok. apply Forall_app in Hpl.
+    destruct Hok as [_ H1]. destruct Hpl as [_ H2]. apply Forall_inv in H1. apply Forall_inv in H2. split; assumption. }
+  destruct Hlast as [Hl1 Hl2]. unfold pk_ok in Hl2. unfold cap in Hidr.
+  assert (Hfull : Forall (full_pkt ps) pre).
+  { rewrite Hp in Hok, Hpl. apply Forall_app in Hok. apply Forall_app in Hpl.
+    destruct Hok as [Hok1 _]. destruct Hpl as [Hpl1 _].
+    apply Forall_forall. intros p Hin. rewrite Forall_forall in Hok1, Hpl1.
+    specialize (Hok1 p Hin). specialize (Hpl1 p Hin). unfold pk_ok in Hok1. split; [exact Hpl1|lia]. }
+  pose proof (zlen_nonneg pre) as Hn0.
+  assert (Hnpk : npk (tq st) = zlen pre + 1) by (unfold npk; rewrite Hp, zlen_app; reflexivity).
+  destruct (send_loop_b_flush ps chan typ (zlen pre) (id (tq st)) last ltac:(lia) ltac:(lia) ltac:(lia)
+              pre 0 (tnr st) b Hfull ltac:(lia) ltac:(lia)) as [[s [Hs E]]|E].
+  - (* interrupted: s complete packets went out, the message is abandoned *)
+    unfold send_remaining_b, send_packets_b. rewrite Hp, Hip, E.
+    unfold discard_sent.
+    replace ((Z.of_nat s <? 0) || (npk (tq st) <? Z.of_nat s)) with false
+      by (symmetry; apply orb_false_iff; split; apply Z.ltb_ge; unfold zlen in *; lia).
+    assert (Hlen : length (enc_fulls ps typ chan (tnr st) (map pdata (firstn s pre))) = s).
+    { rewrite length_enc_fulls, map_length. apply firstn_length_le. exact Hs. }
+    assert (Hpre : tx_prefix_ok ps typ chan (tnr st) (before (tq st))
+                     (enc_fulls ps typ chan (tnr st) (map pdata (firstn s pre))) = true).
+    { rewrite (before_last (tq st) pre last Hp Hip).
+      replace (concat (map pdata pre)) with (concat (map pdata (firstn s pre)) ++ concat (map pdata (skipn s pre)))
+        by (rewrite <- concat_app, <- map_app, firstn_skipn; reflexivity).
+      rewrite <- app_assoc.
+      apply tx_prefix_fulls; [lia|lia| | |intros _; reflexivity].
+      - apply Forall_map, Forall_firstn, Forall_forall. intros p Hin. rewrite Forall_forall in Hfull. apply (Hfull p Hin).
+      - rewrite zlen_app, zlen_ztake by lia. pose proof (zlen_nonneg (concat (map pdata (skipn s pre)))). lia. }
+    destruct (ip (tq st) - Z.of_nat s <? 0); cbn [tq tnr reset];
+      (eexists _, _, true; split; [reflexivity|]; split; [reflexivity|]; split; [exact Hpre|]);
+      cbn [tnr]; rewrite Hlen; reflexivity.
+  - (* everything went out: the live result *)
+    unfold send_remaining_b, send_packets_b, send_remaining, send_packets. rewrite Hp, Hip, E.
+    rewrite (send_loop_fulls ps chan typ false (zlen pre) (id (tq st)) ltac:(lia) pre 0 [last] (tnr st) Hfull ltac:(lia) ltac:(lia)).
+    rewrite Z.add_0_l. cbn [send_loop]. rewrite Z.eqb_refl.
+    replace ((id (tq st) <? 0) || (zlen (pdata last) <? id (tq st))) with false
+      by (symmetry; apply orb_false_iff; split; apply Z.ltb_ge; lia).
+    rewrite (send_last ps chan typ (steps chan (tnr st) (length pre)) (id (tq st)) last) by lia.
+    rewrite <- steps_step. replace (0 + 1 + zlen pre) with (zlen pre + 1) by lia.
+    destruct (discard_sent (zlen pre + 1) (tq st)) as [q'|] eqn:Ed.
+    + eexists _, _, false. split; [reflexivity|]. split; reflexivity.
+    + exfalso. unfold discard_sent in Ed. rewrite Hnpk in Ed.
+      replace ((zlen pre + 1 <? 0) || (zlen pre + 1 <? zlen pre + 1)) with false in Ed
+        by (symmetry; apply orb_false_iff; split; apply Z.ltb_ge; lia).
+      destruct (ip (tq st) - (zlen pre + 1) <? 0); discriminate.
+Qed.
+
+(* ------------------------------------------------------------------ every history of calls *)
+Lemma send_loop_b_err ps chan typ f ipq idq : forall pk i nr b o n s,
+  send_loop_b ps chan typ f ipq idq i pk nr b = Some (o, n, s, true) -> 0 <= s < zlen pk.
+Proof.
+  induction pk as [|p r IH]; intros i nr b o n s H; cbn [send_loop_b] in H; [discriminate|].
+  rewrite zlen_cons. pose proof (zlen_nonneg r) as Hr. destruct (bdone b).
+  - inversion H; subst. lia.
+  - destruct (i =? ipq).
+    + destruct f; [discriminate|]. destruct ((idq <? 0) || (zlen (pdata p) <? idq)); [discriminate|].
+      destruct (send_packet ps chan typ true nr _) as [[bs nr1]|]; [|discriminate].
+      destruct (send_loop_b ps chan typ false ipq idq (i + 1) r nr1 (bdec b)) as [[[[o2 n2] s2] e2]|] eqn:E; [|discriminate].
+      inversion H; subst. specialize (IH _ _ _ _ _ _ E). lia.
+    + destruct (send_packet ps chan typ false nr p) as [[bs nr1]|]; [|discriminate].
+      destruct (send_loop_b ps chan typ f ipq idq (i + 1) r nr1 (bdec b)) as [[[[o2 n2] s2] e2]|] eqn:E; [|discriminate].
+      inversion H; subst. specialize (IH _ _ _ _ _ _ E). lia.
+Qed.
+
+Lemma zdrop_nonnil {A} n (l : list A) : 0 <= n < zlen l -> zdrop n l <> [].
+Proof. intros H Hn. pose proof (zlen_zdrop n l ltac:(lia)) as Hz. rewrite Hn in Hz. cbn in Hz. lia. Qed.
+
+(* an error means that packets stay queued *)
+Lemma send_packets_b_err ps chan typ f st b o st' : send_packets_b ps chan typ f st b = Some (o, st', true) ->
+  pkts (tq st') <> [].
+Proof.
+  unfold send_packets_b.
+  destruct (send_loop_b ps chan typ f (ip (tq st)) (id (tq st)) 0 (pkts (tq st)) (tnr st) b) as [[[[o1 n1] s1] e1]|] eqn:E; [|discriminate].
+  unfold discard_sent, npk. intros H.
+  destruct ((s1 <? 0) || (zlen (pkts (tq st)) <? s1)); [discriminate|].
+  assert (He : e1 = true) by (destruct (ip (tq st) - s1 <? 0); inversion H; reflexivity). subst e1.
+  pose proof (send_loop_b_err _ _ _ _ _ _ _ _ _ _ _ _ _ E) as Hs.
+  destruct (ip (tq st) - s1 <? 0); inversion H; subst; cbn [tq pkts]; apply zdrop_nonnil; exact Hs.
+Qed.
+
+Lemma queue_package_b_err ps chan typ c st b o st' : queue_package_b ps chan typ c st b = Some (o, st', true) ->
+  pkts (tq st') <> [].
+Proof.
+  unfold queue_package_b. destruct (write_chunks ps c (tq st)) as [q'|]; [|discriminate]. apply send_packets_b_err.
+Qed.
+
+Lemma queue_package_b_live_ok ps chan typ c st o st' e : queue_package_b ps chan typ c st None = Some (o, st', e) -> e = false.
+Proof.
+  rewrite queue_package_b_live. destruct (queue_package ps chan typ c st) as [[o1 st1]|]; [|discriminate].
+  intros H; inversion H; reflexivity.
+Qed.
+Lemma send_remaining_b_live_ok ps chan typ st o st' e : send_remaining_b ps chan typ st None = Some (o, st', e) -> e = false.
+Proof.
+  rewrite send_remaining_b_live. destruct (send_remaining ps chan typ st) as [[o1 st1]|]; [|discriminate].
+  intros H; inversion H; reflexivity.
+Qed.
+
+(* the flush, structurally: some complete packets; unless interrupted, also the rest as the last packet *)
+Lemma flush_struct ps chan typ st b : 9 <= ps <= 65535 -> msg_qi ps (tq st) -> pkts (tq st) <> [] ->
+  exists fulls rest (e : bool),
+    send_remaining_b ps chan typ st b =
+      Some (enc_fulls ps typ chan (tnr st) fulls ++
+            (if e then [] else [enc_pkt typ 1 (8 + zlen rest) chan (steps chan (tnr st) (length fulls)) rest]),
+            {| tq := empty_pq; tnr := steps chan (tnr st) (length fulls + (if e then 0 else 1)) |}, e) /\
+    Forall (fun x => zlen x = ps - 8) fulls /\ concat fulls ++ rest = before (tq st) /\ 1 <= zlen rest /\
+    (e = false -> zlen rest <= ps - 8).
+Proof.
+  intros Hps [Htx [Hpl Hid]] Hne. specialize (Hid Hne).
+  destruct Htx as [Hok [[Hnil _]|[pre [last [Hp [Hip Hidr]]]]]]; [congruence|].
+  assert (Hlast : plen last = ps /\ pk_ok last).
+  { rewrite Hp in Hok, Hpl. apply Forall_app in Hok. apply Forall_app in Hpl.
+    destruct Hok as [_ H1]. destruct Hpl as [_ H2]. apply Forall_inv in H1. apply Forall_inv in H2. split; assumption. }
+  destruct Hlast as [Hl1 Hl2]. unfold pk_ok in Hl2. unfold cap in Hidr.
+  assert (Hfull : Forall (full_pkt ps) pre).
+  { rewrite Hp in Hok, Hpl. apply Forall_app in Hok. apply Forall_app in Hpl.
+    destruct Hok as [Hok1 _]. destruct Hpl as [Hpl1 _].
+    apply Forall_forall. intros p Hin. rewrite Forall_forall in Hok1, Hpl1.
+    specialize (Hok1 p Hin). specialize (Hpl1 p Hin). unfold pk_ok in Hok1. split; [exact Hpl1|lia]. }
+  assert (Hfb : forall l, Forall (full_pkt ps) l -> Forall (fun x => zlen x = ps - 8) (map pdata l)).
+  { intros l Hl. apply Forall_map. apply Forall_forall. intros p Hin. rewrite Forall_forall in Hl. apply (Hl p Hin). }
+  pose proof (zlen_nonneg pre) as Hn0.
+  assert (Hnpk : npk (tq st) = zlen pre + 1) by (unfold npk; rewrite Hp, zlen_app; reflexivity).
+  unfold send_remaining_b, send_packets_b. rewrite Hp, Hip.
+  destruct (send_loop_b_flush ps chan typ (zlen pre) (id (tq st)) last ltac:(lia) ltac:(lia) ltac:(lia)
+              pre 0 (tnr st) b Hfull ltac:(lia) ltac:(lia)) as [[s [Hs E]]|E]; rewrite E; unfold discard_sent; rewrite Hnpk.
+  - replace ((Z.of_nat s <? 0) || (zlen pre + 1 <? Z.of_nat s)) with false
+      by (symmetry; apply orb_false_iff; split; apply Z.ltb_ge; unfold zlen in *; lia).
+    exists (map pdata (firstn s pre)), (concat (map pdata (skipn s pre)) ++ ztake (id (tq st)) (pdata last)), true.
+    rewrite app_nil_r, Nat.add_0_r, map_length, firstn_length_le by exact Hs.
+    split; [destruct (ip (tq st) - Z.of_nat s <? 0); reflexivity|].
+    split; [apply Hfb, Forall_firstn, Hfull|]. split.
+    + rewrite (before_last (tq st) pre last Hp Hip). rewrite app_assoc, <- concat_app, <- map_app, firstn_skipn. reflexivity.
+    + split; [|discriminate]. rewrite zlen_app, zlen_ztake by lia.
+      pose proof (zlen_nonneg (concat (map pdata (skipn s pre)))). lia.
+  - replace ((zlen pre + 1 <? 0) || (zlen pre + 1 <? zlen pre + 1)) with false
+      by (symmetry; apply orb_false_iff; split; apply Z.ltb_ge; lia).
+    exists (map pdata pre), (ztake (id (tq st)) (pdata last)), false.
+    rewrite map_length, zlen_ztake by lia. replace (length pre + 1)%nat with (S (length pre)) by lia.
+    split; [destruct (ip (tq st) - (zlen pre + 1) <? 0); reflexivity|].
+    split; [apply Hfb, Hfull|]. split; [rewrite (before_last (tq st) pre last Hp Hip); reflexivity|].
+    split; [lia|intros _; lia].
+Qed.
+
+(* the relation between the specification's bookkeeping and the model state inside a segment:
+   [done] = the bodies of the packets of the current message that went out already *)
+Definition R (ps typ chan : Z) (s : sstate) (st : txst) : Prop :=
+  exists done nr0, Forall (fun x => zlen x = ps - 8) done /\ a_w s = enc_fulls ps typ chan nr0 done /\
+    a_p s = concat done ++ before (tq st) /\ tnr st = steps chan nr0 (length done) /\
+    0 <= nr0 < 256 /\ (0 < chan -> nr0 mod 256 = a_nr s mod 256) /\
+    msg_qi ps (tq st) /\ (pkts (tq st) = [] -> done = []).
+
+Lemma msg_qi_nil_before ps q : msg_qi ps q -> pkts q = [] -> before q = [].
+Proof.
+  intros [[_ [[_ [Hip Hid]]|[pre [last [Hp _]]]]] _] Hnil.
+  - unfold before, pkt_at. rewrite Hnil, Hip, Hid. reflexivity.
+  - rewrite Hp in Hnil. destruct pre; discriminate.
+Qed.
+
+Lemma is_nil_app_cons {A} (l : list A) x r : is_nil (l ++ x :: r) = false.
+Proof. destruct l; reflexivity. Qed.
+
+Lemma pending_iff st : pending st = negb (is_nil (pkts (tq st))).
+Proof. unfold pending, npk. destruct (pkts (tq st)) as [|p l]; [reflexivity|]. rewrite zlen_cons. pose proof (zlen_nonneg l).
+  cbn [is_nil negb]. replace (1 + zlen l =? 0) with false by (symmetry; apply Z.eqb_neq; lia). reflexivity. Qed.
+
+Lemma nr_rel chan nr0 a k (ws : list bytes) : 0 <= nr0 < 256 -> (0 < chan -> nr0 mod 256 = a mod 256) -> zlen ws = Z.of_nat k ->
+  0 <= steps chan nr0 k < 256 /\ (0 < chan -> steps chan nr0 k mod 256 = nr_after chan a ws mod 256).
+Proof.
+  intros Hr Hm Hk. rewrite steps_value by exact Hr. unfold nr_after. destruct (Z.ltb_spec 0 chan) as [Hpos|Hz].
+  - split; [apply Z.mod_pos_bound; lia|]. intros _. rewrite !Z.mod_mod by lia. rewrite Hk.
+    rewrite <- Zplus_mod_idemp_l, (Hm Hpos), Zplus_mod_idemp_l. reflexivity.
+  - split; [exact Hr|]. intros Habs. lia.
+Qed.
+
+Lemma step_queue ps typ chan c b s st : 9 <= ps <= 65535 -> 0 <= chan < 65536 -> R ps typ chan s st ->
+  exists o st' e, queue_package_b ps chan typ c st b = Some (o, st', e) /\
+    let s' := {| a_w := a_w s ++ o; a_p := a_p s ++ concat c; a_nr := a_nr s |} in
+    s_continue ps typ chan (a_w s ++ o) (a_p s ++ concat c) (pending st') s = Some s' /\ R ps typ chan s' st'.
+Proof.
+  intros Hps Hc [done [nr0 [Hd [Hw [Hp [Hn [Hr [Hm [Hq Hz]]]]]]]]].
+  destruct (queue_package_b_spec ps chan typ c st b ltac:(lia) Hq) as [fulls [st' [e [E [Hq' [Hf [Hcat [Hn' Hz']]]]]]]].
+  exists (enc_fulls ps typ chan (tnr st) fulls), st', e. split; [exact E|].
+  assert (Hws : a_w s ++ enc_fulls ps typ chan (tnr st) fulls = enc_fulls ps typ chan nr0 (done ++ fulls))
+    by (rewrite Hw, Hn, <- enc_fulls_app; reflexivity).
+  assert (Hpp : a_p s ++ concat c = concat (done ++ fulls) ++ before (tq st'))
+    by (rewrite Hp, concat_app, <- !app_assoc, Hcat; reflexivity).
+  assert (Hdf : Forall (fun x => zlen x = ps - 8) (done ++ fulls)) by (apply Forall_app; split; assumption).
+  assert (Hzz : pkts (tq st') = [] -> done ++ fulls = []).
+  { intros Hnil. destruct (Hz' Hnil) as [Hfn Hbn]. apply app_eq_nil in Hbn. destruct Hbn as [Hbn _].
+    rewrite Hfn, (Hz (msg_qi_before_nil ps (tq st) Hq Hbn)). reflexivity. }
+  cbn zeta. split.
+  - unfold s_continue. rewrite Hws, Hpp, pending_iff.
+    destruct (before (tq st')) as [|x r] eqn:Eb.
+    + pose proof (msg_qi_before_nil ps (tq st') Hq' Eb) as Hnil. rewrite (Hzz Hnil), Hnil. reflexivity.
+    + assert (Hne : pkts (tq st') <> []).
+      { intros Hnil. rewrite (msg_qi_nil_before ps (tq st') Hq' Hnil) in Eb. discriminate. }
+      rewrite (tx_prefix_fulls ps typ chan Hps Hc (done ++ fulls) (a_nr s) nr0 (x :: r) Hdf) by
+        (try exact Hm; rewrite zlen_cons; pose proof (zlen_nonneg r); lia).
+      rewrite is_nil_app_cons. destruct (pkts (tq st')); [congruence|]. reflexivity.
+  - exists (done ++ fulls), nr0. cbn [a_w a_p a_nr].
+    split; [exact Hdf|]. split; [exact Hws|]. split; [exact Hpp|].
+    split; [rewrite Hn', Hn, app_length, steps_add; reflexivity|].
+    split; [exact Hr|]. split; [exact Hm|]. split; [exact Hq'|exact Hzz].
+Qed.
+
+Lemma step_flush ps typ chan b s st : 9 <= ps <= 65535 -> 0 <= chan < 65536 -> R ps typ chan s st ->
+  exists o st' e, send_remaining_b ps chan typ st b = Some (o, st', e) /\ tq st' = empty_pq /\
+    let s' := {| a_w := []; a_p := []; a_nr := nr_after chan (a_nr s) (a_w s ++ o) |} in
+    (if e then s_abandon ps typ chan (a_w s ++ o) (a_p s) false s
+     else s_complete ps typ chan (a_w s ++ o) (a_p s) false s) = Some s' /\ R ps typ chan s' st'.
+Proof.
+  intros Hps Hc [done [nr0 [Hd [Hw [Hp [Hn [Hr [Hm [Hq Hz]]]]]]]]].
+  assert (Hnew : forall k ws, zlen ws = Z.of_nat k ->
+    R ps typ chan {| a_w := []; a_p := []; a_nr := nr_after chan (a_nr s) ws |} {| tq := empty_pq; tnr := steps chan nr0 k |}).
+  { intros k ws Hk. destruct (nr_rel chan nr0 (a_nr s) k ws Hr Hm Hk) as [Hr' Hm'].
+    exists [], (steps chan nr0 k). cbn [a_w a_p a_nr tq tnr enc_fulls concat app length steps].
+    split; [constructor|]. split; [reflexivity|]. split; [reflexivity|]. split; [reflexivity|].
+    split; [exact Hr'|]. split; [exact Hm'|]. split; [apply msg_qi_empty|reflexivity]. }
+  destruct (pkts (tq st)) as [|p0 l0] eqn:Ep.
+  - (* nothing queued: nothing written, no error *)
+    pose proof (Hz eq_refl) as Hdn. subst done. cbn [enc_fulls concat app length steps] in *.
+    rewrite (msg_qi_nil_before ps (tq st) Hq Ep) in Hp.
+    exists [], {| tq := empty_pq; tnr := tnr st |}, false. split.
+    + unfold send_remaining_b, send_packets_b. rewrite Ep. cbn [send_loop_b]. unfold discard_sent, npk. rewrite Ep.
+      cbn [zlen length Z.of_nat]. replace ((0 <? 0) || (0 <? 0)) with false by reflexivity.
+      destruct (ip (tq st) - 0 <? 0); reflexivity.
+    + split; [reflexivity|]. cbn zeta. rewrite Hw, Hp. cbn [app]. split; [reflexivity|].
+      rewrite Hn. apply (Hnew O []). reflexivity.
+  - assert (Hne : pkts (tq st) <> []) by (rewrite Ep; discriminate).
+    destruct (flush_struct ps chan typ st b Hps Hq Hne) as [fulls [rest [e [E [Hf [Hcat [Hrl Hru]]]]]]].
+    assert (Hdf : Forall (fun x => zlen x = ps - 8) (done ++ fulls)) by (apply Forall_app; split; assumption).
+    assert (Hpp : a_p s = concat (done ++ fulls) ++ rest) by (rewrite Hp, concat_app, <- app_assoc, Hcat; reflexivity).
+    assert (Hws : a_w s ++ enc_fulls ps typ chan (tnr st) fulls = enc_fulls ps typ chan nr0 (done ++ fulls))
+      by (rewrite Hw, Hn, <- enc_fulls_app; reflexivity).
+    destruct rest as [|x r]; [cbn in Hrl; lia|].
+    unfold bytes in *.
+    assert (Hst1 : steps chan (tnr st) (length fulls) = steps chan nr0 (length (done ++ fulls)))
+      by (rewrite Hn, app_length, steps_add; reflexivity).
+    assert (Hst2 : steps chan (tnr st) (length fulls + 1) = steps chan nr0 (S (length (done ++ fulls)))).
+    { rewrite Hn, <- steps_add. f_equal. rewrite app_length. lia. }
+    destruct e.
+    + rewrite Nat.add_0_r, Hst1 in E.
+      eexists _, _, true. split; [exact E|]. split; [reflexivity|]. cbn zeta.
+      rewrite app_nil_r, Hws. split.
+      * unfold s_abandon. rewrite Hpp.
+        rewrite (tx_prefix_fulls ps typ chan Hps Hc (done ++ fulls) (a_nr s) nr0 (x :: r) Hdf Hrl Hm). reflexivity.
+      * apply Hnew. unfold zlen. rewrite length_enc_fulls. unfold bytes. reflexivity.
+    + rewrite Hst1, Hst2 in E.
+      eexists _, _, false. split; [exact E|]. split; [reflexivity|]. cbn zeta.
+      rewrite app_assoc, Hws. split.
+      * unfold s_complete. rewrite Hpp, is_nil_app_cons.
+        pose proof (tx_ok_fulls ps typ chan Hps Hc (done ++ fulls) (a_nr s) nr0 (x :: r) Hdf ltac:(specialize (Hru eq_refl); lia) Hm) as HT.
+        unfold bytes in HT. rewrite HT. reflexivity.
+      * apply Hnew. rewrite zlen_app. unfold zlen. rewrite length_enc_fulls. cbn [length]. unfold bytes. lia.
+Qed.
+
+(* calls after which no message is open: every flush (failed ones abandon), SendPackage with a live context *)
+Definition closes (c : call) : bool :=
+  match c with CFlush _ => true | CSendPkg _ None => true | _ => false end.
+
+Lemma pending_empty st : tq st = empty_pq -> pending st = false.
+Proof. intros H. rewrite pending_iff, H. reflexivity. Qed.
+
+Lemma step_call ps typ chan c s st : 9 <= ps <= 65535 -> 0 <= chan < 65536 -> R ps typ chan s st ->
+  exists o st' e s', run_call ps chan typ c st = Some (o, st', e) /\
+    call_ok ps typ chan c (o, e, pending st') s = Some s' /\ R ps typ chan s' st' /\
+    (closes c = true -> a_w s' = [] /\ a_p s' = [] /\ tq st' = empty_pq).
+Proof.
+  intros Hps Hc HR. destruct c as [chunks b|chunks b|b].
+  - destruct (step_queue ps typ chan chunks b s st Hps Hc HR) as [o [st' [e [E [Hs HR']]]]]. cbn zeta in Hs, HR'.
+    eexists o, st', e, _. cbn [run_call call_ok]. split; [exact E|].
+    assert (He : e && live b = false).
+    { destruct b as [k|]; [apply andb_false_r|]. rewrite (queue_package_b_live_ok _ _ _ _ _ _ _ _ E). reflexivity. }
+    rewrite He. split; [exact Hs|]. split; [exact HR'|]. cbn [closes]. discriminate.
+  - destruct (step_queue ps typ chan chunks b s st Hps Hc HR) as [o1 [st1 [e1 [E1 [Hs1 HR1]]]]]. cbn zeta in Hs1, HR1.
+    cbn [run_call call_ok]. unfold send_package_b. rewrite E1. destruct e1.
+    + (* the QueuePackage half failed: the message goes on *)
+      eexists o1, st1, true, _. split; [reflexivity|].
+      assert (Hb : live b = false).
+      { destruct b as [k|]; [reflexivity|]. pose proof (queue_package_b_live_ok _ _ _ _ _ _ _ _ E1). discriminate. }
+      rewrite Hb. cbn [andb].
+      assert (Hpend : pending st1 = true).
+      { rewrite pending_iff. pose proof (queue_package_b_err _ _ _ _ _ _ _ _ E1) as Hne.
+        destruct (pkts (tq st1)); [congruence|reflexivity]. }
+      rewrite Hpend in *. split; [exact Hs1|]. split; [exact HR1|].
+      destruct b as [k|]; [cbn [closes]; discriminate|discriminate].
+    + destruct (step_flush ps typ chan (bsub b (length o1)) _ st1 Hps Hc HR1) as [o2 [st2 [e2 [E2 [Hq2 [Hs2 HR2]]]]]].
+      cbn zeta in Hs2, HR2. cbn [a_w a_p a_nr] in Hs2, HR2.
+      rewrite E2. eexists (o1 ++ o2), st2, e2, _. split; [reflexivity|].
+      assert (He : e2 && live b = false).
+      { destruct b as [k|]; [apply andb_false_r|]. cbn [bsub] in E2.
+        rewrite (send_remaining_b_live_ok _ _ _ _ _ _ _ E2). reflexivity. }
+      rewrite He, (pending_empty st2 Hq2), app_assoc.
+      split; [|split; [exact HR2|intros _; cbn [a_w a_p]; repeat split; exact Hq2]].
+      destruct e2; exact Hs2.
+  - destruct (step_flush ps typ chan b s st Hps Hc HR) as [o [st' [e [E [Hq [Hs HR']]]]]]. cbn zeta in Hs, HR'.
+    eexists o, st', e, _. cbn [run_call call_ok]. split; [exact E|].
+    assert (He : e && live b = false).
+    { destruct b as [k|]; [apply andb_false_r|]. rewrite (send_remaining_b_live_ok _ _ _ _ _ _ _ E). reflexivity. }
+    rewrite He, (pending_empty st' Hq).
+    split; [exact Hs|]. split; [exact HR'|]. intros _. cbn [a_w a_p]. repeat split; exact Hq.
+Qed.
+
+Fixpoint ends_closed (cs : list call) : bool :=
+  match cs with
+  | [] => false
+  | c :: r => match r with [] => closes c | _ :: _ => ends_closed r end
+  end.
+
+Lemma calls_model ps typ chan : 9 <= ps <= 65535 -> 0 <= chan < 65536 -> forall cs s st, R ps typ chan s st ->
+  exists os st' s', run_calls ps chan typ cs st = Some (os, st') /\ calls_ok ps typ chan cs os s = Some s' /\
+    R ps typ chan s' st' /\ (ends_closed cs = true -> a_w s' = [] /\ a_p s' = [] /\ tq st' = empty_pq).
+Proof.
+  intros Hps Hc. induction cs as [|c r IH]; intros s st HR.
+  - exists [], st, s. cbn [run_calls calls_ok ends_closed]. split; [reflexivity|]. split; [reflexivity|].
+    split; [exact HR|discriminate].
+  - destruct (step_call ps typ chan c s st Hps Hc HR) as [o [st1 [e [s1 [E [Hok [HR1 Hcl]]]]]]].
+    destruct (IH s1 st1 HR1) as [os [st2 [s2 [E2 [Hok2 [HR2 Hcl2]]]]]].
+    exists ((o, e, pending st1) :: os), st2, s2. cbn [run_calls calls_ok]. rewrite E, E2, Hok.
+    split; [reflexivity|]. split; [exact Hok2|]. split; [exact HR2|].
+    destruct r as [|c2 r'].
+    + cbn [ends_closed]. intros Hc1. cbn [run_calls calls_ok] in E2, Hok2.
+      inversion E2; subst. inversion Hok2; subst. apply Hcl. exact Hc1.
+    + exact Hcl2.
+Qed.
+
+Definition seg_wf (g : segment) : Prop := 9 <= g_ps g <= 65535 /\ ends_closed (g_calls g) = true.
+
+Lemma R_closed ps typ chan s st : a_w s = [] -> a_p s = [] -> tq st = empty_pq -> 0 <= tnr st < 256 ->
+  (0 < chan -> tnr st mod 256 = a_nr s mod 256) -> R ps typ chan s st.
+Proof.
+  intros Hw Hp Hq Hr Hm. exists [], (tnr st). rewrite Hw, Hp, Hq.
+  split; [constructor|]. split; [reflexivity|]. split; [reflexivity|]. split; [reflexivity|].
+  split; [exact Hr|]. split; [exact Hm|]. split; [apply msg_qi_empty|reflexivity].
+Qed.
+
+Lemma R_nr ps typ chan s st : R ps typ chan s st -> a_w s = [] ->
+  0 <= tnr st < 256 /\ (0 < chan -> tnr st mod 256 = a_nr s mod 256).
+Proof.
+  intros [done [nr0 [Hd [Hw [Hp [Hn [Hr [Hm _]]]]]]]] Hnil. rewrite Hw in Hnil.
+  destruct done as [|x done]; [|discriminate]. cbn [length steps] in Hn. rewrite Hn. split; assumption.
+Qed.
+
+(* every history of segments (each closed by a flush; packet size / header type per segment) satisfies the
+   executable specification of fn 2 *)
+Theorem segments_model chan : 0 <= chan < 65536 -> forall gs s st, Forall seg_wf gs ->
+  a_w s = [] -> a_p s = [] -> tq st = empty_pq -> 0 <= tnr st < 256 ->
+  (0 < chan -> tnr st mod 256 = a_nr s mod 256) ->
+  exists outs st', run_segments chan gs st = Some (outs, st') /\ segments_ok chan gs outs s = true.
+Proof.
+  intros Hc. induction gs as [|g gs IH]; intros s st Hwf Hw Hp Hq Hr Hm.
+  - exists [], st. split; reflexivity.
+  - pose proof (Forall_inv Hwf) as [Hps Hend]. pose proof (Forall_inv_tail Hwf) as Hrest.
+    pose proof (R_closed (g_ps g) (g_typ g) chan s st Hw Hp Hq Hr Hm) as HR.
+    destruct (calls_model (g_ps g) (g_typ g) chan Hps Hc (g_calls g) s st HR) as [os [st1 [s1 [E [Hok [HR1 Hcl]]]]]].
+    destruct (Hcl Hend) as [Hw1 [Hp1 Hq1]].
+    destruct (R_nr _ _ _ _ _ HR1 Hw1) as [Hr1 Hm1].
+    destruct (IH s1 st1 Hrest Hw1 Hp1 Hq1 Hr1 Hm1) as [outs [st2 [E2 Hok2]]].
+    exists (os :: outs), st2. cbn [run_segments segments_ok]. rewrite E, E2, Hok, Hw1, Hp1, Hok2.
+    split; reflexivity.
+Qed.
